@@ -187,7 +187,7 @@ CHECKS["C05"] = {
     "level": "exploration",
     "technique": "metamorphic + model-based: per generated (target pattern, request, response style, optional payload corruption) ALL 1-cut and (small responses) ALL 2-cut partitions of the response into callback invocations, 1-byte fragments and sampled k-cuts; oracle = unfragmented run satisfies placement/validity/confinement against the chunk table and a snapshot, every fragmented run yields the identical file, flags and acceptance",
     "level_text": "For each generated response the set of single cuts is enumerated completely and, for responses up to 220 (thorough 420) bytes, the set of cut pairs as well; every delivery runs on a fresh target and context. Placement, verification and confinement are checked on the unfragmented run against the generator's chunk table and a byte snapshot; fragmented runs must be indistinguishable. Exhaustive over cuts per response, responses sampled.",
-    "level_note": "Trusted: generator's chunk table, in-process server (gen/dl.hpp). Transport model: header lines arrive one per header callback, body fragments <= 16 KiB, delivery stops at the first callback that returns a short count (as libcurl does). Extra part headers never contain the text 'content-range:'; header values carry no trailing whitespace.",
+    "level_note": "Trusted: generator's chunk table, in-process server (gen/dl.hpp). Transport model: header lines arrive one per header callback (in heap blocks of exactly their length), body fragments <= 16 KiB except in the large-response class (one in six cases: chunks of 20-60 KB, pieces of any length, e.g. everything behind a cut inside a part header in ONE piece), delivery stops at the first callback that returns a short count (as libcurl does). Extra part headers never contain the text 'content-range:'; header values carry no trailing whitespace.",
     "rule": "case = (B, validity pattern, limit, response style/boundary, corruption?) x cut set. Non-trivial = response with >= 2 parts (or >= 2 chunks in a single range) and, for multipart, at least one cut falling strictly inside a part header (boundary line, headers or the blank line); distinct = (case, cut set) by construction.",
     "assumptions": ["server sends parts in request order", "transport stops delivering after a callback signals an error"],
     "runs": [
